@@ -97,6 +97,7 @@ type checkResult struct {
 	Violations []string
 	Known      []string
 	Undecided  []string
+	Bounded    []*boundedResult
 	Wall       float64
 }
 
@@ -363,6 +364,26 @@ func cmdCheck(args []string) int {
 	for _, o := range undecided {
 		res.Undecided = append(res.Undecided, o.Name)
 	}
+	// ---- bounded stand-ins (labelled bounded; never counted as proved) ----
+	for _, bs := range loadBounded(*prop) {
+		br := runBounded(bs, *tier, filepath.Join(work, "bounded"))
+		res.Bounded = append(res.Bounded, br)
+		if br.OK {
+			fmt.Printf("bounded stand-in %s (%s): held on everything explored in %.1fs: %s\n", bs.Name, bs.Bound[*tier], br.Seconds, br.Report)
+			continue
+		}
+		path := filepath.Join(replayDir, fileSafe(bs.Name)+".bounded.replay.txt")
+		os.WriteFile(path, []byte(fmt.Sprintf("property: %s\nbounded stand-in: %s\nwhat: %s\nbound: %s\nre-run: cd %s && go test -overlay <overlay mapping zz_verif_bounded_test.go to %s> -vet=off -run '^%s$' .\n\n---- output ----\n%s\n",
+			*prop, bs.Name, bs.What, bs.Bound[*tier], filepath.Join(repoDir(), bs.PkgDir), filepath.Join(verifDir(), bs.Template), bs.TestFunc, br.Output)), 0o644)
+		suffix := " no-failing-input-found"
+		if strings.Contains(br.Output, "VERIF-REPRODUCED") {
+			suffix = "" // the failing input was produced by running the real code
+		}
+		fmt.Printf("failed bounded stand-in: %s\n", bs.Name)
+		fmt.Printf("VIOLATION property=%s replay=%s%s\n", *prop, path, suffix)
+		res.Violations = append(res.Violations, "bounded:"+bs.Name)
+		exit = 1
+	}
 	if nObl == 0 {
 		return fail("zero obligations generated (vacuity guard)")
 	}
@@ -549,6 +570,19 @@ func writeEvidence(path string, res *checkResult, nObl, nDis, nCover, nCovered i
 			"fixed_findings":           fixed,
 			"samples":                  samples,
 		},
+	}
+	if len(res.Bounded) > 0 {
+		var bl []map[string]any
+		for _, br := range res.Bounded {
+			var rep any
+			json.Unmarshal([]byte(br.Report), &rep)
+			bl = append(bl, map[string]any{"name": br.Spec.Name, "label": "bounded", "what": br.Spec.What, "why_not_deductive": br.Spec.Reason,
+				"bound": br.Spec.Bound[res.Tier], "held": br.OK, "seconds": roundTo(br.Seconds, 1), "report": rep,
+				"counted_as_proved": false})
+			assumptions = append(assumptions, "bounded (not proved): "+br.Spec.What+" - "+br.Spec.Bound[res.Tier])
+		}
+		ev["coverage"].(map[string]any)["bounded_stand_ins"] = bl
+		ev["assumptions"] = assumptions
 	}
 	b, _ := json.MarshalIndent(ev, "", " ")
 	os.WriteFile(path, append(b, '\n'), 0o644)
